@@ -1,0 +1,51 @@
+// Copyright © 2024 Attestant Limited.
+// Licensed under the Apache License, Version 2.0 (the "License");
+// you may not use this file except in compliance with the License.
+// You may obtain a copy of the License at
+//
+//     http://www.apache.org/licenses/LICENSE-2.0
+//
+// Unless required by applicable law or agreed to in writing, software
+// distributed under the License is distributed on an "AS IS" BASIS,
+// WITHOUT WARRANTIES OR CONDITIONS OF ANY KIND, either express or implied.
+// See the License for the specific language governing permissions and
+// limitations under the License.
+
+//go:build verif
+
+package standard
+
+import "sort"
+
+// VerifConfigLockFree reports whether the execution configuration lock can be taken for writing right now,
+// i.e. that no reader or writer has been left holding it.  For external runtime monitors only.
+func (s *Service) VerifConfigLockFree() bool {
+	if s.executionConfigMu.TryLock() {
+		s.executionConfigMu.Unlock()
+		return true
+	}
+	return false
+}
+
+// VerifBuilderBidSlots returns the slots (as cached keys) for which builder bids are held.
+func (s *Service) VerifBuilderBidSlots() []string {
+	s.builderBidsCacheMu.RLock()
+	defer s.builderBidsCacheMu.RUnlock()
+	slots := make([]string, 0, len(s.builderBidsCache))
+	for slot := range s.builderBidsCache {
+		slots = append(slots, slot)
+	}
+	sort.Strings(slots)
+	return slots
+}
+
+// VerifRegistrationCacheSizes returns the sizes of the signed and latest validator registration caches.
+func (s *Service) VerifRegistrationCacheSizes() (int, int) {
+	s.signedValidatorRegistrationsMu.RLock()
+	signed := len(s.signedValidatorRegistrations)
+	s.signedValidatorRegistrationsMu.RUnlock()
+	s.latestValidatorRegistrationsMu.RLock()
+	latest := len(s.latestValidatorRegistrations)
+	s.latestValidatorRegistrationsMu.RUnlock()
+	return signed, latest
+}
